@@ -113,15 +113,15 @@ PLANS = {
     ),
     'C01': dict(
         module='RucteProps.C01',
-        extra_modules=['RucteProps.C01Nodes'],
-        theorems=['Ructe.C01.textLit_ascii', 'Ructe.C01.textLit_nonascii', 'Ructe.C01.lower_text', 'Ructe.C01.render_text', 'Ructe.C01.text_node_sound', 'Ructe.C01.comment_node_sound', 'Ructe.C01.node_consumes', 'Ructe.C01.text_complete', 'Ructe.C01.escapes_complete'],
+        extra_modules=['RucteProps.C01Nodes', 'RucteProps.C15Tree', 'RucteProps.C13Header'],
+        theorems=['Ructe.C01.textLit_ascii', 'Ructe.C01.textLit_nonascii', 'Ructe.C01.lower_text', 'Ructe.C01.render_text', 'Ructe.C01.text_node_sound', 'Ructe.C01.comment_node_sound', 'Ructe.C01.node_consumes', 'Ructe.C01.text_complete', 'Ructe.C01.escapes_complete', 'Ructe.C15Tree.body_complete', 'Ructe.C13Header.template_complete'],
         runs=[dict(suite='parse', mix='examples,text,structured', n=dict(quick=4000, thorough=80000), projection='body',
                    tags=['C01'], literal_oracle=True),
               dict(suite='e2e', n=dict(quick=300, thorough=6000), projection='identity', tags=['C01'])],
         correspondence='syntax tree of the parse and the body of the generated code vs Ructe.template / Ructe.writeRust; every printed text literal is decoded by the Lean model of rustc\'s literal lexer and compared with the text node',
         rule='every ASCII code point except @{} alone / at the start / middle / end of a run, at 7 nesting positions; random text over quotes, backslashes, CR/LF, NUL, controls, multi-byte scalars, escape look-alikes, the three escapes, comments; structured templates with their documented tree; non-trivial = distinct accepted syntax trees',
         assumptions=['rustc lexes literals as the Rust Reference says (modelled by decodeStrLit / decodeByteStrLit; rustc itself is the judge in the e2e runs)'],
-        level_text='Proved for all inputs: textLit_ascii / textLit_nonascii (the printed literal lexes to exactly the text: every byte string resp. every valid UTF-8 text, every uniEsc), text_node_sound / comment_node_sound / node_consumes (what a text or comment node accounts for in the source), text_complete / escapes_complete, lower_text, render_text; with C11.template_accepts_whole every byte is accounted for. Tie: differential run on tree and code, printed literals decoded by the model lexer, rustc end-to-end rendering.',
+        level_text='Proved for all inputs: textLit_ascii / textLit_nonascii (the printed literal lexes to exactly the text: every byte string resp. every valid UTF-8 text, every uniEsc), text_node_sound / comment_node_sound / node_consumes (what a text or comment node accounts for in the source), text_complete / escapes_complete, lower_text, render_text; with C11.template_accepts_whole every byte is accounted for. In the other direction C13Header.template_complete / C15Tree.body_complete: every well-formed source (header + body tree, any nesting) parses to exactly its intended tree, text nodes and escapes at every nesting position byte for byte, comments as comment nodes, and the only dropped body text is the layout after the declaration (hypothesis StopsLayout on the body, with the counterexample that forces it). Tie: differential run on tree and code, printed literals decoded by the model lexer, rustc end-to-end rendering.',
         level_note='Trusted: Lean kernel; hand-written model of the parser/emitter and of Rust literal syntax.',
         design_ref='DESIGN.md §6 C01',
     ),
@@ -140,25 +140,25 @@ PLANS = {
     ),
     'C13': dict(
         module='RucteProps.C13',
-        extra_modules=['RucteProps.C13Args'],
-        theorems=['Ructe.C13.signature_shape', 'Ructe.C13.content_exact', 'Ructe.C13.content_suffix_only', 'Ructe.C13.printParam_other', 'Ructe.C13.pinned_counterexamples','Ructe.C13.formalArgument_sound','Ructe.C13.formalArgument_has_colon','Ructe.C13.preamble_item_verbatim'],
+        extra_modules=['RucteProps.C13Args', 'RucteProps.C13Header'],
+        theorems=['Ructe.C13.signature_shape', 'Ructe.C13.content_exact', 'Ructe.C13.content_suffix_only', 'Ructe.C13.printParam_other', 'Ructe.C13.pinned_counterexamples','Ructe.C13.formalArgument_sound','Ructe.C13.formalArgument_has_colon','Ructe.C13.preamble_item_verbatim', 'Ructe.C13Header.typeExpression_complete', 'Ructe.C13Header.formalArgument_complete', 'Ructe.C13Header.template_complete', 'Ructe.C13Header.header_layout_irrelevant', 'Ructe.C13Header.args_verbatim', 'Ructe.C13Header.use_verbatim', 'Ructe.C13Header.typeArgs_verbatim', 'Ructe.C13Header.signature_of_source'],
         runs=[dict(suite='parse', mix='decl,examples,structured', n=dict(quick=4000, thorough=60000), projection='header', tags=['C13'])],
         correspondence='the printed signature (use lines, lifetime list, parameter lines) of every accepted template vs Ructe.fnHeader',
         rule='0..8 parameters over 16 type shapes incl. Content / ContentType / Contents / MyContent / &Content / Vec<Content>, 7 colon layouts, parameter names resembling internals, 0..3 use lines incl. renames/globs/nested braces; non-trivial = distinct accepted syntax trees',
         assumptions=['that calls with values of the declared types type-check is rustc\'s judgement (e2e)'],
-        level_text='Theorems about printParam (only a parameter whose type is exactly Content is rewritten) and fnHeader (sink first, parameters in order, use lines verbatim); tie on the printed signature; independent oracle recomputes the expected parameter lines from the source.',
+        level_text='Theorems about printParam (only a parameter whose type is exactly Content is rewritten) and fnHeader (sink first, parameters in order, use lines verbatim). Completeness of the declaration parser is proved for the whole supported type grammar (C13Header: typeExpression_complete over references, lifetimes, impl / dyn, names, slices, tuples with trailing commas and lifetime elements, generic argument lists, nested to any depth; formalArgument_complete: the recognised value is exactly the source span name-layout-colon-layout-type), and for whole templates: template_complete — for every well-formed header (use lines, lifetime list, parameter list, with layout / white-space slots) and every well-formed body source tree, template (print header ++ print body) is the intended Template with args and use lines verbatim (args_verbatim, use_verbatim, typeArgs_verbatim); signature_of_source states the generated signature in terms of the source spans end to end. Tie on the printed signature; independent oracle recomputes the expected parameter lines from the source.',
         level_note='Trusted: Lean kernel; hand-written model of write_rust.',
         design_ref='DESIGN.md §6 C13',
     ),
     'C15': dict(
         module='RucteProps.C15',
-        extra_modules=['RucteProps.C15Directives', 'RucteProps.C15Calls', 'RucteProps.C15Tree'],
-        theorems=['Ructe.C15.spacelike_complete', 'Ructe.C15.layout_irrelevant_at_slot', 'Ructe.C15.comment_complete', 'Ructe.C15.multispace0_complete', 'Ructe.C15.spacelike_total', 'Ructe.C15.pinned_comment_counterexample', 'Ructe.C15.if_layout_irrelevant', 'Ructe.C15.if_else_layout_irrelevant', 'Ructe.C15.for_layout_irrelevant', 'Ructe.C15.if_name_layout_irrelevant', 'Ructe.C15.match_layout_irrelevant', 'Ructe.C15.call_layout_irrelevant', 'Ructe.C15Tree.nodes_complete', 'Ructe.C15Tree.block_complete', 'Ructe.C15Tree.body_complete', 'Ructe.C15Tree.node_complete', 'Ructe.C15Tree.layout_irrelevant_tree', 'Ructe.C15Tree.layout_irrelevant_block', 'Ructe.C15Tree.no_swallow_after_block', 'Ructe.C15Tree.cond_inner_layout', 'Ructe.C15Tree.if_inner_layout', 'Ructe.C15Tree.for_pattern_complete', 'Ructe.C15Tree.loop_expression_complete', 'Ructe.C15Tree.cond_expression_complete', 'Ructe.C15Tree.dispatch_exact'],
+        extra_modules=['RucteProps.C15Directives', 'RucteProps.C15Calls', 'RucteProps.C15Tree', 'RucteProps.C13Header'],
+        theorems=['Ructe.C15.spacelike_complete', 'Ructe.C15.layout_irrelevant_at_slot', 'Ructe.C15.comment_complete', 'Ructe.C15.multispace0_complete', 'Ructe.C15.spacelike_total', 'Ructe.C15.pinned_comment_counterexample', 'Ructe.C15.if_layout_irrelevant', 'Ructe.C15.if_else_layout_irrelevant', 'Ructe.C15.for_layout_irrelevant', 'Ructe.C15.if_name_layout_irrelevant', 'Ructe.C15.match_layout_irrelevant', 'Ructe.C15.call_layout_irrelevant', 'Ructe.C15Tree.nodes_complete', 'Ructe.C15Tree.block_complete', 'Ructe.C15Tree.body_complete', 'Ructe.C15Tree.node_complete', 'Ructe.C15Tree.layout_irrelevant_tree', 'Ructe.C15Tree.layout_irrelevant_block', 'Ructe.C15Tree.no_swallow_after_block', 'Ructe.C15Tree.cond_inner_layout', 'Ructe.C15Tree.if_inner_layout', 'Ructe.C15Tree.for_pattern_complete', 'Ructe.C15Tree.loop_expression_complete', 'Ructe.C15Tree.cond_expression_complete', 'Ructe.C15Tree.dispatch_exact', 'Ructe.C13Header.template_complete', 'Ructe.C13Header.header_layout_irrelevant', 'Ructe.C13Header.typeExpression_lead_irrelevant'],
         runs=[dict(suite='parse', mix='structured', n=dict(quick=5000, thorough=50000), projection='text', tags=['C15'])],
         correspondence='generated code, byte for byte, of canonical and perturbed prints of the same source tree vs the model\'s single answer',
         rule='every structured template printed canonically and twice with random admissible layouts (white space, LF, CRLF, tabs, 8 comment shapes incl. `**@` endings) at every slot kind; non-trivial = distinct accepted syntax trees',
         assumptions=[],
-        level_text='Proved: at every layout slot of the grammar any admissible layout is consumed completely and is indistinguishable from any other (spacelike_complete, layout_irrelevant_at_slot, comment_complete, multispace0_complete, spacelike_total, spacelike_sound). Compositional completeness lemmas for the directives are proved (if_layout_irrelevant, if_else_layout_irrelevant, for_layout_irrelevant, if_name_layout_irrelevant, match_layout_irrelevant, call_layout_irrelevant): any admissible layout at the slots of the directive yields the same node. The induction over a whole source tree IS proved (RucteProps/C15Tree.lean over RucteProofs/SrcTree*.lean): for every source tree of the documented body syntax (text, @@ @{ @}, comments, @name, @name(group), @(group), @if with else / else-if chains, @for, @match, @:call with Rust and block arguments, nested to any depth, with a layout slot at every place the syntax allows insignificant material) that meets the explicit well-formedness predicate WF, the parser returns exactly the intended tree (nodes_complete, block_complete, body_complete, node_complete, fuel bound explicit), hence two trees that differ only in their layout slots parse to the same tree and give byte-identical code (layout_irrelevant_tree, layout_irrelevant_block), and nothing after a closing brace is swallowed (no_swallow_after_block). Every Rust fragment in the tree is a documented expression (C05.DExpr): @expr nodes, call arguments, match scrutinee and arm patterns, @for patterns (name with optional {..}, or optional & + tuple, stored normalised) and iterables (expression with optional .. / ..= range), @if conditions (let bindings, stored normalised; logic expressions with !, the eight relational operators and inner layout, stored verbatim). Layout inside a logic condition is part of the stored fragment, so it is not erased by sameShape; cond_inner_layout / if_inner_layout state that two conditions differing only there are stored as the same token list woven with their own gaps (behavioural equality is then up to rustc, validated by e2e). dispatch_exact: which text after @ reaches the expression arm. The template header is not part of this theorem. The rest is covered by the metamorphic oracle (canonical vs perturbed prints give byte-identical code and the documented tree) + tie on the full text.',
+        level_text='Proved: at every layout slot of the grammar any admissible layout is consumed completely and is indistinguishable from any other (spacelike_complete, layout_irrelevant_at_slot, comment_complete, multispace0_complete, spacelike_total, spacelike_sound). Compositional completeness lemmas for the directives are proved (if_layout_irrelevant, if_else_layout_irrelevant, for_layout_irrelevant, if_name_layout_irrelevant, match_layout_irrelevant, call_layout_irrelevant): any admissible layout at the slots of the directive yields the same node. The induction over a whole source tree IS proved (RucteProps/C15Tree.lean over RucteProofs/SrcTree*.lean): for every source tree of the documented body syntax (text, @@ @{ @}, comments, @name, @name(group), @(group), @if with else / else-if chains, @for, @match, @:call with Rust and block arguments, nested to any depth, with a layout slot at every place the syntax allows insignificant material) that meets the explicit well-formedness predicate WF, the parser returns exactly the intended tree (nodes_complete, block_complete, body_complete, node_complete, fuel bound explicit), hence two trees that differ only in their layout slots parse to the same tree and give byte-identical code (layout_irrelevant_tree, layout_irrelevant_block), and nothing after a closing brace is swallowed (no_swallow_after_block). Every Rust fragment in the tree is a documented expression (C05.DExpr): @expr nodes, call arguments, match scrutinee and arm patterns, @for patterns (name with optional {..}, or optional & + tuple, stored normalised) and iterables (expression with optional .. / ..= range), @if conditions (let bindings, stored normalised; logic expressions with !, the eight relational operators and inner layout, stored verbatim). Layout inside a logic condition is part of the stored fragment, so it is not erased by sameShape; cond_inner_layout / if_inner_layout state that two conditions differing only there are stored as the same token list woven with their own gaps (behavioural equality is then up to rustc, validated by e2e). dispatch_exact: which text after @ reaches the expression arm. The header is covered too (C13Header.template_complete, header_layout_irrelevant): two whole templates that differ only in the layout around use lines, after the declaration, in the white-space slots after `(`, after commas and before `)`, and in the layout slots of the body parse to the same Template, hence give byte-identical code; white space inside a parameter (around the colon, inside the type) is part of the verbatim span and is kept (behavioural equality up to rustc, e2e). What remains outside the theorems (inputs outside the documented source grammar) is covered by the metamorphic oracle (canonical vs perturbed prints give byte-identical code and the documented tree) + tie on the full text.',
         level_note='Trusted: Lean kernel; hand-written model; generator\'s notion of admissible layout.',
         design_ref='DESIGN.md §6 C15',
     ),
